@@ -53,7 +53,8 @@ def r_C03eval(root):
             clss[name]["._tx_peg_rule"] = roots[name]
             if spec[name][0] != "ref": roots[name]["._tx_class"] = clss[name]
         mm = MM()
-        for name in order: mm[name] = clss[name]
+        for name in order:
+            if name not in HIDDEN[0]: mm[name] = clss[name]        # a hidden class lives in a grammar the main grammar does not import itself: neither iterated nor found by name
         return mm, clss
     def run(spec, order):
         mm, clss = build(spec, order)
@@ -66,6 +67,7 @@ def r_C03eval(root):
             raise AnalysisError("_determine_rule_types: outside the evaluated subset: %s" % u_)
         inv = {COMMON: "common", ABSTRACT: "abstract", MATCH: "match"}
         return None, {n: (inv.get(c["._tx_type"], c["._tx_type"]), [x[".__name__"] for x in c["._tx_inh_by"]]) for n, c in clss.items()}
+    HIDDEN = [()]
     BASE = {"INT": ("match", None), "ID": ("match", None)}
     grammars = [
         ("Model: items+=Item; Item: A | B; A: x=..; B: x=..; Kw: 'x'|'y'; Val: INT | Kw;",
@@ -116,9 +118,16 @@ def r_C03eval(root):
         ("Pair: Kw First Second | Other; Kw: 'x'|'y'; First: x=..; Second: x=..; Other: x=..;",
          dict(BASE, Pair=("choice", [("seq", ["Kw", "First", "Second"]), "Other"]), Kw=("matchchoice", ["'x'", "'y'"]), First=("common", None), Second=("common", None), Other=("common", None)),
          {"Pair": ("abstract", ["First", "Other"])}),
+        ("X: Y; Model: x=..;     with Y: x=..; in a grammar that only the grammar of X imports (the main grammar cannot look Y up by name)",
+         dict(BASE, X=("ref", "Y"), Model=("common", None), Y=("common", None)),
+         {"X": ("abstract", ["Y"]), "Model": ("common", [])}, ("Y",)),
+        ("X: K; Model: x=..;     with K: 'a'|'b'; in a grammar that only the grammar of X imports",
+         dict(BASE, X=("ref", "K"), Model=("common", None), K=("matchchoice", ["'a'", "'b'"])),
+         {"X": ("match", []), "Model": ("common", [])}, ("K",)),
     ]
     W = "TextXVisitor._determine_rule_types"
-    for src, spec, want in grammars:
+    for g_ in grammars:
+        src, spec, want = g_[:3]; HIDDEN[0] = g_[3] if len(g_) > 3 else ()
         names = list(spec)
         orders = [names, list(reversed(names))]
         from sa import util as _u
